@@ -169,10 +169,14 @@ def rank_distribution_precomputed():
   worst = F(0)
   bad = []
   n = 0
-  for r in (31, 32, 33, 40, 64):
+  # square shapes use the embedded asymptotic table from 31 x 31 on; non-square shapes of every size must NOT (the
+  # limiting distribution of the rank deficiency depends on c - r) - seeded change C12-5
+  shapes = [(r, r) for r in (31, 32, 33, 40, 64)] + [(31, 33), (33, 31), (32, 40), (40, 32), (31, 32), (64, 32), (32, 64),
+                                                     (100, 31), (31, 100), (30, 40), (40, 30)]
+  for r, c in shapes:
     for k in range(1, 6):
-      got = ns.RankDistribution(r, r, k)
-      exp = _rank_distribution_exact(r, r, k)
+      got = ns.RankDistribution(r, c, k)
+      exp = _rank_distribution_exact(r, c, k)
       n += 1
       for i, (g, e) in enumerate(zip(got, exp)):
         # the last entry is the sum of 6-k printed values: one unit per summand
@@ -180,9 +184,9 @@ def rank_distribution_precomputed():
         d = abs(F(g) - e)
         worst = max(worst, d)
         if d > tol or len(got) != k + 1:
-          bad.append((r, k, i, float(d)))
-  return not bad, ("precomputed row used for r == c >= 31, k <= 5 vs exact product formula at r in {31,32,33,40,64}: "
-                   "%d (r, k) pairs, max deviation %.3g (tolerance 1e-8 per printed value)%s" % (
+          bad.append((r, c, k, i, float(d)))
+  return not bad, ("default RankDistribution (precomputed row for r == c >= 31, k <= 5; exact otherwise) vs exact product "
+                   "formula at 5 square and 11 non-square shapes >= 30: %d (r, c, k) triples, max deviation %.3g (tolerance 1e-8 per printed value)%s" % (
                        n, float(worst), "; violations: %s" % bad[:5] if bad else ""))
 
 
